@@ -344,6 +344,12 @@ def nodupKeys : List Bytes → Bool
 def descOK (legacy : Bool) (name : Bytes) (labels : List KV) : Bool :=
   metricNameOK legacy name && labels.all (fun kv => labelNameOK legacy kv.1) && nodupKeys (labels.map (·.1))
 
+/-- validateLabelValues (NewConstMetric / NewConstHistogram / NewConstNativeHistogram): every label value is valid UTF-8 -/
+def valuesOK (labels : List KV) : Bool := labels.all (fun kv => Utf8.validString kv.2)
+
+/-- the constructor chain NewDesc + NewConst* succeeds -/
+def metricOK (legacy : Bool) (name : Bytes) (labels : List KV) : Bool := descOK legacy name labels && valuesOK labels
+
 def scopeNameLabel : Bytes := b "otel_scope_name"
 def scopeVersionLabel : Bytes := b "otel_scope_version"
 
@@ -417,7 +423,7 @@ def exemplarsOut (esc : Bytes → Bytes) (legacy : Bool) (typ : MType) (payload 
 def emitPoint (esc : Bytes → Bytes) (legacy : Bool) (name help : Bytes) (typ : MType) (extra : List KV) (p : Point) :
     Option Emitted :=
   let labels := getAttrs esc legacy p.attrs ++ extra
-  if !descOK legacy name labels then none
+  if !metricOK legacy name labels then none
   else match p.payload with
     | .num q => some ⟨name, help, typ, labels, .num q, exemplarsOut esc legacy typ p.payload p.exemplars⟩
     | .hist count sumq bounds counts =>
@@ -444,7 +450,7 @@ def collectInsts (esc : Bytes → Bytes) (cfg : Cfg) (extra : List KV) :
 def scopeInfoMetric (esc : Bytes → Bytes) (legacy : Bool) (s : Scope) : Option Emitted :=
   -- attribute.NewSet sorts: otel_scope_name < otel_scope_version
   let labels := getAttrs esc legacy [(scopeNameLabel, s.name), (scopeVersionLabel, s.version)]
-  if descOK legacy (b "otel_scope_info") labels then
+  if metricOK legacy (b "otel_scope_info") labels then
     some ⟨b "otel_scope_info", b "Instrumentation Scope metadata", .gauge, labels, .num 4, []⟩
   else none
 
@@ -496,7 +502,7 @@ def FromPoint (esc : Bytes → Bytes) (cfg : Cfg) (extra : List KV) (i : Inst) (
 def collect (esc : Bytes → Bytes) (sc : Scenario) : List Emitted :=
   let tlabels := getAttrs esc sc.cfg.legacy sc.res
   let target : List Emitted :=
-    if !sc.noTarget && descOK sc.cfg.legacy (b "target_info") tlabels then [targetInfoMetric esc sc] else []
+    if !sc.noTarget && metricOK sc.cfg.legacy (b "target_info") tlabels then [targetInfoMetric esc sc] else []
   let resKV := if sc.resConst then getAttrs esc sc.cfg.legacy sc.res else []
   target ++ collectScopes esc sc resKV [] sc.scopes
 
@@ -511,7 +517,7 @@ shared buffer. -/
 def collectFrom (esc : Bytes → Bytes) (sc : Scenario) (fams : List Fam) : List Emitted × List Fam :=
   let tlabels := getAttrs esc sc.cfg.legacy sc.res
   let target : List Emitted :=
-    if !sc.noTarget && descOK sc.cfg.legacy (b "target_info") tlabels then [targetInfoMetric esc sc] else []
+    if !sc.noTarget && metricOK sc.cfg.legacy (b "target_info") tlabels then [targetInfoMetric esc sc] else []
   let resKV := if sc.resConst then getAttrs esc sc.cfg.legacy sc.res else []
   (target ++ collectScopes esc sc resKV fams sc.scopes, scopesFams esc sc resKV fams sc.scopes)
 
